@@ -15,7 +15,9 @@ func handleINT(ocode ocode.Ocode) []byte {
 
 	// 割り込み番号を取得
 	if len(ocode.Operands) != 1 {
-		panic("INT instruction requires one operand")
+		// INT "1,2" や INT "" のようにオペランドが 1 個にならない入力は診断して無視する
+		log.Printf("error: INT instruction requires one operand, got %d", len(ocode.Operands))
+		return nil
 	}
 
 	// 0xを除去して16進数として解析
